@@ -2,11 +2,11 @@
    return the same sequence of mappings.
    Statements only; proofs in Proofs.IsoBitsProofs.  The claim is about chython/algorithms/_isomorphism.pyx AS SOURCE
    (run through a transpiler by the check; the compiled extension cannot be built here). *)
-From Coq Require Import ZArith List Bool.
-From Model Require Import PyBase PeriodicTable IsoBits IsoBitsExt.
+From Coq Require Import ZArith List Bool String.
+From Model Require Import PyBase PeriodicTable IsoBits IsoBitsExt IsoBitsPyx.
 From Model Require Iso.
-From Gen Require Import Elements.
-From Proofs Require Import IsoBitsProofs IsoBitsSearchProofs IsoBitsExtProofs.
+From Gen Require Import Elements IsoClosure.
+From Proofs Require Import IsoBitsProofs IsoBitsSearchProofs IsoBitsExtProofs IsoClosureTie IsoBitsPyxProofs.
 Import ListNotations.
 Open Scope Z_scope.
 
@@ -219,3 +219,68 @@ Theorem C09_mask_match_example :
   closure_ok (enc_closure qb) (enc_bond (mkLB 1 false) (w1 (enc_atom a))) = false.
 Proof. exact mask_match_example. Qed.
 Print Assumptions C09_mask_match_example.
+
+(* THE .pyx LOOP WITH ITS SCRATCH ARRAYS.  pyx_search threads the C arrays `matched` (bint per atom) and `closures` (one bond word
+   per atom: filled for a candidate, read, nulled) through the loop exactly as _isomorphism.pyx does; mask_search represents them
+   by path membership / a fresh lookup.  For ANY query buffer, scope and fuel, and any molecule buffer whose bond records point
+   to atoms of the buffer, the two return the same mappings, and the closures array is all zero again when the loop ends. *)
+Theorem C09_pyx_search_refines : forall qu mo scope, mo_ok mo -> forall fuel,
+  pyx_search qu mo scope fuel = mask_search qu mo scope fuel /\
+  (forall out tr cl, pyx_run qu mo scope fuel = Some (out, tr, cl) -> cl = repeat 0 (natoms mo)).
+Proof. exact pyx_search_refines. Qed.
+Print Assumptions C09_pyx_search_refines.
+
+(* hence the array-level loop of the .pyx on the encoders' buffers returns what _get_mapping returns *)
+Theorem C09_pyx_search_equiv : forall rq rm scope fuel,
+  rq <> [] -> wf_query rq -> wf_mol rm -> in_range_pair rq rm ->
+  pyx_search (enc_query rq) (enc_mol rm) scope fuel = ref_search rq rm scope fuel.
+Proof. exact pyx_search_equiv. Qed.
+Print Assumptions C09_pyx_search_equiv.
+
+Theorem C09_pyx_search_example :
+  mo_okb (enc_mol ex_rm) = true /\
+  pyx_search (enc_query ex_rq) (enc_mol ex_rm) [true; true; true; true] 100 =
+    Some [[3; 2; 1]; [3; 1; 2]; [2; 3; 1]; [2; 1; 3]; [1; 3; 2]; [1; 2; 3]] /\
+  match pyx_run (enc_query ex_rq) (enc_mol ex_rm) [true; true; true; true] 100 with
+  | Some (_, tr, cl) => cl = [0; 0; 0; 0] /\ firstn 3 tr = [(3, O, [], [], 2%nat); (2, 1%nat, [3], [3], 3%nat); (1, 2%nat, [3; 2], [2; 3], 3%nat)]
+  | None => False
+  end.
+Proof. exact pyx_search_example. Qed.
+Print Assumptions C09_pyx_search_example.
+
+(* TIE TO THE SOURCE (regenerated on every run by tools/gen_isoclosure.py into Gen.IsoClosure): the hand-written bond word,
+   ring-closure entry, mask conditions and record layouts of the model are exactly what the current source says.  (The
+   per-atom encoders enc_atom / enc_qatom are tied the same way by tools/gen_isolayout.py: C18_source_*_layout_is_model.) *)
+Theorem C09_source_bond_word_is_model : forall b nb1, g_enc_bond b nb1 = enc_bond b nb1.
+Proof. exact g_enc_bond_is_model. Qed.
+Print Assumptions C09_source_bond_word_is_model.
+
+Theorem C09_source_closure_entry_is_model : forall qb, g_enc_closure qb = enc_closure qb.
+Proof. exact g_enc_closure_is_model. Qed.
+Print Assumptions C09_source_closure_entry_is_model.
+
+Theorem C09_source_first_test_is_model : forall sc m b, g_first_test sc m b = sc && mask_match_first m b.
+Proof. exact g_first_test_is_model. Qed.
+Print Assumptions C09_source_first_test_is_model.
+
+Theorem C09_source_next_test_is_model : forall sc mt m bond b,
+  g_next_test sc mt m bond b = sc && negb mt && mask_match_next m bond b.
+Proof. exact g_next_test_is_model. Qed.
+Print Assumptions C09_source_next_test_is_model.
+
+Theorem C09_source_closure_break_is_model : forall qv c, closure_ok qv c = negb (g_closure_break qv c).
+Proof. exact g_closure_break_is_model. Qed.
+Print Assumptions C09_source_closure_break_is_model.
+
+Theorem C09_source_closure_partner_is_model : forall j n mt, g_counts_as_closure j n mt = negb (j =? n) && mt.
+Proof. exact g_counts_as_closure_is_model. Qed.
+Print Assumptions C09_source_closure_partner_is_model.
+
+Theorem C09_source_struct_layouts_agree :
+  g_header_struct = "I"%string /\
+  fmt_of g_pyx_atom_t = g_m_atom_struct /\ fmt_of g_pyx_q_atom_t = g_q_atom_struct /\ fmt_of g_pyx_bond_t = g_bond_struct /\
+  map snd g_pyx_atom_t = ["bits1"; "bits2"; "bits3"; "bits4"; "from_"; "to_"; "mapping"]%string /\
+  map snd g_pyx_q_atom_t = ["mask1"; "mask2"; "mask3"; "mask4"; "back"; "closure"; "from_"; "to_"; "mapping"]%string /\
+  map snd g_pyx_bond_t = ["bond"; "index"]%string.
+Proof. exact struct_layouts_agree. Qed.
+Print Assumptions C09_source_struct_layouts_agree.
